@@ -1408,6 +1408,7 @@ int scpiParser_parseAllProgramData(lex_state_t * state, scpi_token_t * token, in
     int result;
     scpi_token_t tmp;
     int paramCount = 0;
+    const char * data;
 
     token->len = -1;
     token->type = SCPI_TOKEN_ALL_PROGRAM_DATA;
@@ -1417,14 +1418,15 @@ int scpiParser_parseAllProgramData(lex_state_t * state, scpi_token_t * token, in
     for (result = 1; result != 0; result = scpiLex_Comma(state, &tmp)) {
         token->len += result;
 
+        data = state->pos;
         result = scpiParser_parseProgramData(state, &tmp);
         if (tmp.type != SCPI_TOKEN_UNKNOWN) {
             token->len += result;
         } else {
             token->type = SCPI_TOKEN_UNKNOWN;
             token->len = 0;
-            /* no data at all is valid, separator without following data is not */
-            paramCount = (paramCount == 0) ? 0 : -1;
+            /* no data at all is valid, separator without following data or unfinished data is not */
+            paramCount = ((paramCount == 0) && (state->pos == data + result)) ? 0 : -1;
             break;
         }
         paramCount++;
